@@ -19,6 +19,8 @@ QUALS = [
     "vsg.rule_list.filter_out_disabled_rules",
     "vsg.rule_list.enforce_prerequisites",
     "vsg.rule.Rule.fix",
+    "vsg.apply_rules.apply_rules",
+    "vsg.rule_list.rule_list.clear_violations",
 ]
 
 
